@@ -309,6 +309,53 @@ func genMessage(r *hlib.Rand) []byte {
 	return b
 }
 
+// splitDetails: the fields of one payload spread over 2..4 occurrences of the outer Details field (proto3:
+// repeated occurrences of an embedded message merge), optionally with empty occurrences (`0a 00`) before,
+// between and after, and with a later occurrence overriding an earlier field (last wins).
+func splitDetails(r *hlib.Rand) []byte {
+	p := validPayload(r)
+	var fields [][]byte
+	add := func(num protowire.Number, typ protowire.Type, val []byte) {
+		fields = append(fields, append(protowire.AppendTag(nil, num, typ), val...))
+	}
+	if len(p.Cert) > 0 {
+		add(1, protowire.BytesType, protowire.AppendBytes(nil, p.Cert))
+	}
+	add(2, protowire.VarintType, protowire.AppendVarint(nil, uint64(p.InitiatorIndex)))
+	add(3, protowire.VarintType, protowire.AppendVarint(nil, uint64(p.ResponderIndex)))
+	add(5, protowire.VarintType, protowire.AppendVarint(nil, p.Time))
+	add(8, protowire.VarintType, protowire.AppendVarint(nil, uint64(p.CertVersion)))
+	if r.Chance(1, 3) { // an override in a later occurrence
+		add(hlib.Pick[protowire.Number](r, 2, 3, 8), protowire.VarintType, protowire.AppendVarint(nil, uint64(boundary32(r))))
+	}
+	var out []byte
+	wrap := func(d []byte) {
+		out = protowire.AppendTag(out, 1, protowire.BytesType)
+		out = protowire.AppendBytes(out, d)
+	}
+	if r.Chance(1, 4) {
+		wrap(nil)
+	}
+	for i := 0; i < len(fields); {
+		n := r.Range(1, 3)
+		var d []byte
+		for ; n > 0 && i < len(fields); n, i = n-1, i+1 {
+			d = append(d, fields[i]...)
+		}
+		wrap(d)
+		if r.Chance(1, 5) {
+			wrap(nil)
+		}
+		if r.Chance(1, 8) {
+			out = append(out, genField(r, 2, 2, 1)...) // an Hmac field in between
+		}
+	}
+	if r.Chance(1, 2) {
+		wrap(nil) // trailing empty Details
+	}
+	return out
+}
+
 func validPayload(r *hlib.Rand) handshake.Payload {
 	return handshake.Payload{Cert: r.Bytes(certLen(r) % 400), InitiatorIndex: boundary32(r), ResponderIndex: boundary32(r),
 		Time: boundary64(r), CertVersion: hlib.Pick(r, 0, 1, 2, boundary32(r))}
@@ -407,7 +454,11 @@ func gen(r *hlib.Rand, n int, tier, profile string, emit func(string, ...any)) {
 		case 10:
 			emit("unm %s", hlib.Hex(mutate(r, genMessage(r))))
 		case 11:
-			emit("unm %s", hlib.Hex(r.Bytes(r.Intn(24))))
+			if r.Chance(1, 3) {
+				emit("unm %s", hlib.Hex(r.Bytes(r.Intn(24))))
+			} else {
+				emit("unm %s", hlib.Hex(splitDetails(r)))
+			}
 		case 12:
 			if r.Bool() {
 				emit("avarint %d", boundary64(r))
